@@ -177,7 +177,10 @@ fn build(case: &Case, base: &Path) -> Result<Built, String> {
             Kind::Tar => {
                 let data = text_content(i, case.messages);
                 let stem_name = name.strip_suffix(".tar").unwrap().to_string();
-                wrap(&Codec::Tar { format: 0, pos: 0, decoys: 1, mtime: 1, longname: false }, &data, &d, &stem_name, "member.log")?;
+                // member names of log and of non-log kinds, at the top level and below directories: a tar is read the
+                // same way whether it was named or found by a walk
+                let member = ["member.log", "m/run.sh", "m/sub/data.bin", "notes.py", "var/log/messages", "dump.png.1"][i % 6];
+                wrap(&Codec::Tar { format: 0, pos: 0, decoys: 1, mtime: 1, longname: false }, &data, &d, &stem_name, member)?;
             }
             Kind::Utmp => {
                 let ff = FixedFile { layout: 0, recs: (0..case.messages.max(1)).map(|k| FRec { sec: 1_600_000_000 + k as i64, usec: 0, null: 0, pid: 100 + i as i32, typ: 6, serial: (i * 8 + k as usize) as u32, full: 0, stale: 0 }).collect() };
